@@ -87,6 +87,7 @@ HARMLESS = [
     ('C03', 'sc3/synth/ugen.py', "                l.append(getattr(gpp.ugen_param(item), selector)(*rest))", "                method = getattr(gpp.ugen_param(item), selector)\n                l.append(method(*rest))", 'local for the bound method in _multichannel_perform'),
     ('C04', 'sc3/synth/synthdef.py', "                    arguments[cn.arg_num] = ctrl_ugens[i]\n                    self._set_control_names(ctrl_ugens[i], cn)", "                    out = ctrl_ugens[i]\n                    arguments[cn.arg_num] = out\n                    self._set_control_names(out, cn)", 'local for the control output in the group helper'),
     ('C17', 'sc3/synth/bus.py', "        self._server.addr.send_msg('/c_fill', self._index, channels, value)", "        index = self._index\n        self._server.addr.send_msg('/c_fill', index, channels, value)", 'local for the bus index in fill'),
+    ('C13', 'sc3/seq/patterns/eventpatterns.py', "                event = inevent.copy()\n                event.update(self._stream_dict_next(stream_dict))", "                event = inevent.copy()\n                values = self._stream_dict_next(stream_dict)\n                event.update(values)", 'local for the values of a Pbind pass'),
 ]
 
 BREAKING = [
@@ -171,6 +172,8 @@ BREAKING = [
     ('C17', 'sc3/synth/buffer.py', "            '/b_fill', self._bufnum, start, int(frames), *values)", "            '/b_fill', self._bufnum, int(frames), start, *values)", 'b_fill start and count swapped'),
     ('C14', 'sc3/seq/event.py', "        server.addr.send_bundle(server.latency + self('delay'), msg)\n        self['is_playing'] = False", "        server.addr.send_bundle(server.latency, msg)\n        self['is_playing'] = False", 'mono release ignores its delay'),
     ('C14', 'sc3/seq/event.py', "            msg = ['/n_free', self['node_id']]", "            msg = ['/n_free', self['node_id'], 0]", 'n_free with a stray argument'),
+    ('C13', 'sc3/seq/patterns/eventpatterns.py', "                event = inevent.copy()\n                event.update(self._stream_dict_next(stream_dict))", "                event = inevent\n                event.update(self._stream_dict_next(stream_dict))", 'Pbind writes into the input event'),
+    ('C13', 'sc3/seq/patterns/eventpatterns.py', "        streams = [stm.stream(p) for p in reversed(self.patterns)]", "        streams = [stm.stream(p) for p in self.patterns]", 'Pchain applies its patterns first to last'),
 ]
 
 
